@@ -55,6 +55,12 @@ func genFileBlock(r *Rng, legacy bool) *pbbstream.Block {
 		Number:   r.Height(),
 		LibNum:   r.Height(),
 	}
+	if legacy && r.Intn(3) == 0 {
+		// legacy blocks at or just around the first streamable block (the suite runs with first streamable 0, 1 or 2): the
+		// reader derives their parent number only *above* it
+		b.Number = uint64(r.Intn(4))
+		fileBlockLegacyLow++
+	}
 	if r.Intn(3) > 0 {
 		b.ParentNum = b.Number - 1
 	}
@@ -106,7 +112,7 @@ func genFileBlock(r *Rng, legacy bool) *pbbstream.Block {
 	return b
 }
 
-var fileBlockNearPow2, fileBlockLarge int
+var fileBlockNearPow2, fileBlockLarge, fileBlockLegacyLow int
 
 // oracleFor splits a (possibly damaged) file with the dbin library and decodes every message with proto.Unmarshal.
 func oracleFor(o *Out, file []byte) {
@@ -278,6 +284,15 @@ func suiteDbin(o *Out, r *Rng, n int, tier string) {
 			o.Stat("dbin.empty_message", 1)
 		}
 		fsb := uint64([]int{0, 0, 1, 2}[r.Intn(4)])
+		// legacy blocks at or just below the first streamable block, with a parent number that is not "number - 1": the
+		// reader derives the parent number of a legacy block only above the first streamable block
+		for _, b := range blocks {
+			if b.Payload == nil && b.PayloadBuffer != nil && fsb > 0 && r.Intn(2) == 0 {
+				b.Number = fsb - uint64(r.Intn(int(fsb)+1))
+				b.ParentNum = []uint64{0, 7, b.Number}[r.Intn(3)]
+				o.Stat("dbin.legacy_block_at_or_below_first_streamable", 1)
+			}
+		}
 		// layout, to place damage at interesting offsets
 		var buf bytes.Buffer
 		w, _ := bstream.NewDBinBlockWriter(&buf)
@@ -345,6 +360,7 @@ func suiteDbin(o *Out, r *Rng, n int, tier string) {
 	}
 	o.Stat("dbin.blocks_marshalled_near_power_of_two", int64(fileBlockNearPow2))
 	o.Stat("dbin.blocks_over_400_bytes", int64(fileBlockLarge))
+	o.Stat("dbin.legacy_blocks_numbered_0_to_3", int64(fileBlockLegacyLow))
 }
 
 func replayDbin(o *Out, lines []string) {
